@@ -310,6 +310,19 @@ def r5(ctx, retsets):
     if not bad:
         ctx.ok("C14.R5", "rtr_receive_pdu:typestate", "%s:%d" % (fn.relfile, fn.line), "%d report sites, header in network order at each of them" % len(nsites))
     ctx.floor("C14.R5", len(nsites), 5)
+    # the receive function changes the received bytes only by byte-order conversion: what is echoed later is what arrived
+    writes = []
+    for i in fn.all_insts():
+        if i.op == "store" and vf.root_of(vf.expr(fn, i["ptr"])) == ("arg", 1):
+            writes.append(i)
+        if i.op == "call" and (i.callee or "").startswith(("llvm.memcpy", "llvm.memset", "llvm.memmove", "memset")) and vf.root_of(vf.expr(fn, i.args[0])) == ("arg", 1):
+            src = vf.root_of(vf.expr(fn, i.args[1])) if len(i.args) > 1 else None
+            whole_header = vf.expr(fn, i.args[0]) == ("arg", 1) and isinstance(src, tuple) and src[0] == "alloca" and vf.expr(fn, i.args[2]) == ("c", HDR)
+            if not whole_header:
+                writes.append(i)
+    ctx.check(not writes, "C14.R5", "rtr_receive_pdu:no-edit-of-the-received-bytes", (writes[0].loc() if writes else "%s:%d" % (fn.relfile, fn.line)),
+              ("the receive buffer is written at line %d outside the byte-order conversion: the PDU stored and echoed later is no longer the PDU received" % writes[0].line)
+              if writes else "the buffer is written only by the transport, the converted-header copy and the conversion functions", key="C14.R5:rtr_receive_pdu:edit")
     # elsewhere: only from_host, and only on buffers filled by a successful rtr_receive_pdu (or records copied from them)
     for c in pdb.callers("rtr_send_error_pdu_from_network"):
         ctx.check(c.fn.name == "rtr_receive_pdu", "C14.R5", "from_network-only-in-receive:%s" % c.fn.name, c.loc(),
